@@ -465,3 +465,27 @@ Definition sp_xprog (p : xprog) (args : list Z) (j : nat) : option outcome :=
           end
       end
   end.
+
+(* ------------------------------------------------------------------ the well-typed programs
+
+   the model's handles are untyped (an entry value is a Z: an integer or the number of a list object); the faithful
+   fragment - and the one for which the model is PROVED to give the specification's outcome - is delimited by a naming
+   discipline: the key of a list-valued entry / let starts with `l`, every other key does not *)
+Definition is_lkey (k : str) : bool := match k with c :: _ => N.eqb c 108 | [] => false end.
+Definition xval_typed (kv : str * xval) : bool :=
+  match snd kv with XVList _ => is_lkey (fst kv) | XVInt _ => negb (is_lkey (fst kv)) end.
+Fixpoint xm_typed (e : xmexp) : bool :=
+  match e with
+  | XMConst _ => true
+  | XMLit es => forallb xval_typed es
+  | XMPut m k v => xm_typed m && xval_typed (k, v)
+  | XMMerge a b => xm_typed a && xm_typed b
+  end.
+Definition xb_typed (b : xbind) : bool :=
+  match b with
+  | XBList m k => xm_typed m && is_lkey k
+  | XBInt m k => xm_typed m && negb (is_lkey k)
+  | XBSize m => xm_typed m
+  | XBIndex _ _ | XBOSize _ => true
+  end.
+Definition xprog_wt (p : xprog) : bool := forallb xm_typed (xp_mdefs p) && forallb xb_typed (xp_binds p).
